@@ -266,7 +266,9 @@ Dispatch(C, d, m2, o) ==
        [] o[1] = "REPEAT" -> [d2 EXCEPT !.rep = TRUE]
        [] o[1] = "HALT"   -> [d2 EXCEPT !.phase = "done", !.why = "halt"]
        [] o[1] = "ERR"    -> [d2 EXCEPT !.phase = "done", !.why = "error", !.outfree = TRUE]
-       [] o[1] = "PRINT"  -> [Emit(Emit(d2, "banner", PrintBanner(e)), "print", PrintOut(m2, e.ast.what).out) EXCEPT !.idx = @ + 1]
+       [] o[1] = "PRINT"  -> [Emit(Emit(d2, "banner", PrintBanner(e)), "print",
+                                   \* (an answer PRINT for a line that is no print statement is judged by the caller)
+                                   IF e.ast.cls = "print" THEN PrintOut(m2, e.ast.what).out ELSE << >>) EXCEPT !.idx = @ + 1]
        [] o[1] = "INT" ->
             CASE o[2] = 0 -> [Emit(d2, "banner", Div0Banner(e)) EXCEPT !.phase = "done", !.why = "int0"]
               [] o[2] = 3 -> [Emit(d2, "banner", Int3Banner(e)) EXCEPT !.phase = "prompt", !.after = "advance"]
